@@ -1,6 +1,9 @@
 //! Harness binary `h_gs_c <PROP> --seed S --tier T [--count N] [--replay F]`.
 //! One module per property (`cNN.rs`, `pub fn run(args: &hcore::Args, out: &mut hcore::Out)`).
+mod c28;
+mod c29;
 mod c35;
+mod gsops;
 mod node;
 
 /// Virtual monotonic clock, FROZEN: `CLOCK_MONOTONIC` reads exactly `BASE_SECS` seconds +
@@ -40,6 +43,8 @@ fn main() {
     let mut out = hcore::Out::new();
     match args.prop.as_str() {
         "C35" => c35::run(&args, &mut out),
+        "C29" => c29::run(&args, &mut out),
+        "C28" => c28::run(&args, &mut out),
         p => {
             eprintln!("h_gs_c: unknown property {p}");
             std::process::exit(2);
